@@ -91,19 +91,7 @@ def check_all(sigs, hist, lbs, where):
     return n
 
 
-def run_stream(case):
-    q = load()
-    assets = case['assets']
-    lbs = case['lookbacks']
-    dyn = case.get('entries')
-    split = bool(dyn) and case.get('split', False)
-    if dyn:
-        uni = q.DynamicUniverse({a: (None if e is None else T0 + pd.Timedelta(days=e)) for a, e in zip(assets, dyn)})
-    else:
-        uni = q.StaticUniverse(list(assets))
-    # with `split` the volatility signal follows a static universe of all assets while momentum and SMA follow the
-    # dynamic one: signals in one collection must not feed each other's windows
-    uni_of = {'momentum': uni, 'sma': uni, 'vol': q.StaticUniverse(list(assets)) if split else uni}
+def _one_pass(q, case, assets, lbs, dyn, split, uni_of, label):
     sigs = {'momentum': q.MomentumSignal(T0, uni_of['momentum'], list(lbs['momentum'])),
             'sma': q.SMASignal(T0, uni_of['sma'], list(lbs['sma'])),
             'vol': q.VolatilitySignal(T0, uni_of['vol'], list(lbs['vol']))}
@@ -143,12 +131,38 @@ def run_stream(case):
                     raise Violation('step %d: %s signal tracks %s, universe members so far %s' % (
                         i, name, sorted(s.assets), sorted(members)))
         for name, s in sigs.items():
-            nq += check_all({name: s}, hist[name], lbs, 'step %d %s' % (i, op[0]))
+            nq += check_all({name: s}, hist[name], lbs, label + 'step %d %s' % (i, op[0]))
+    return nq, hist
+
+
+def run_stream(case):
+    q = load()
+    assets = case['assets']
+    lbs = case['lookbacks']
+    dyn = case.get('entries')
+    split = bool(dyn) and case.get('split', False)
+    if dyn:
+        uni = q.DynamicUniverse({a: (None if e is None else T0 + pd.Timedelta(days=e)) for a, e in zip(assets, dyn)})
+    else:
+        uni = q.StaticUniverse(list(assets))
+    # with `split` the volatility signal follows a static universe of all assets while momentum and SMA follow the
+    # dynamic one: signals in one collection must not feed each other's windows
+    uni_of = {'momentum': uni, 'sma': uni, 'vol': q.StaticUniverse(list(assets)) if split else uni}
+    nq = 0
+    passes = 2 if case.get('second_pass') else 1
+    for pass_no in range(passes):
+        # a second pass builds fresh signals over the very same universe objects and replays the stream from T0,
+        # as a second backtest in one process does
+        n_, hist = _one_pass(q, case, assets, lbs, dyn, split, uni_of, 'pass %d ' % (pass_no + 1) if passes > 1 else '')
+        nq += n_
+
     allb = sorted(set(x for v in lbs.values() for x in v))
     slides = any(len(h) > min(allb) + 1 for hh in hist.values() for h in hh.values())
     cls = ['dynamic' if dyn else 'static', 'assets_%d' % len(assets)]
     if split:
         cls.append('signals_with_different_universes')
+    if passes > 1:
+        cls.append('second_pass_over_shared_universe')
     if any(len(v) == 1 for v in lbs.values()):
         cls.append('single_lookback')
     if any(len(h) == 1 for hh in hist.values() for h in hh.values()):
@@ -181,6 +195,7 @@ def streams(draw):
     if mode == 'update_dynamic':
         case['entries'] = [draw(st.sampled_from([0, 0, 1, 3, 8, None])) for _ in assets]
         case['split'] = draw(st.booleans())
+        case['second_pass'] = draw(st.booleans())
     n = draw(st.one_of(st.integers(1, 12), st.integers(1, 60)))
     ops = []
     for _ in range(n):
@@ -201,8 +216,20 @@ def run_sess(case):
     mk = case['market']
     with market.csv_dir(mk) as path:
         r = session.run_session(cfg, path, list(mk), probe_signals=True)
+        res = _verify_sess(case, r, '')
+        if case.get('rerun_shared'):
+            clear_caches()
+            r2 = session.run_session(cfg, path, list(mk), probe_signals=True, shared={'universe': r.universe})
+            _verify_sess(case, r2, 'second run sharing the universe object: ')
+            res.classes.append('rerun_with_shared_universe')
+    return res
+
+
+def _verify_sess(case, r, label):
+    cfg = case['cfg']
+    mk = case['market']
     if r.error:
-        raise Violation('session failed with %s: %s at broker time %s' % r.error)
+        raise Violation('%ssession failed with %s: %s at broker time %s' % ((label,) + tuple(r.error)))
     d0, d1 = cal.date3(cfg['start']), cal.date3(cfg['end'])
     start = cal.ts6(cfg['start'])
     days = cal.bdays(d0, d1)
@@ -227,12 +254,12 @@ def run_sess(case):
                 pts.append((t, lookup(obs[a], t)[0]))
         series[a] = pts
     if r.signals.warmup != len(days):
-        raise Violation('signals warmup %r, the session had %d business days' % (r.signals.warmup, len(days)))
+        raise Violation(label + 'signals warmup %r, the session had %d business days' % (r.signals.warmup, len(days)))
     late = False
     for name, s in r.sig.items():
         want_assets = sorted(a for a, p in series.items() if p or entry[a] is None or entry[a] <= start)
         if sorted(s.assets) != want_assets:
-            raise Violation('%s signal tracks %s at the end; universe members were %s' % (name, sorted(s.assets), want_assets))
+            raise Violation(label + '%s signal tracks %s at the end; universe members were %s' % (name, sorted(s.assets), want_assets))
         bump = 0 if name == 'sma' else 1
         for a in s.assets:
             full = [p for _, p in series[a]]
@@ -243,7 +270,7 @@ def run_sess(case):
                 buf = list(s.buffers.prices.get(key, [])) if full or key in s.buffers.prices else []
                 want = full[-(lb + bump):]
                 if len(buf) != len(want) or any(not close_enough(x, y) for x, y in zip(buf, want)):
-                    raise Violation('%s buffer of %s (lookback %d) holds %s; the last %d closes since entry are %s' % (
+                    raise Violation(label + '%s buffer of %s (lookback %d) holds %s; the last %d closes since entry are %s' % (
                         name, a, lb, buf[-4:], lb + bump, want[-4:]))
     # values seen by the alpha model at each rebalance
     nprobe = 0
@@ -257,7 +284,7 @@ def run_sess(case):
             want = ORACLE[name](h, lb)
             nprobe += 1
             if not close_enough(got, want, sig_scale(name, h, lb)):
-                raise Violation('at rebalance %s: %s(%s, %d) = %r, definition over the closes so far %s gives %r' % (
+                raise Violation(label + 'at rebalance %s: %s(%s, %d) = %r, definition over the closes so far %s gives %r' % (
                     dt, name, a, lb, got, h[-(lb + 2):], want))
     cls = list(case.get('labels', [])) + [cfg['rebalance'], ucfg['kind'], cfg['alpha']['kind']]
     if late:
@@ -291,7 +318,8 @@ def sessions(draw):
     if a['kind'] == 'invvol' and a['lookback'] not in sig['vol']:
         sig['vol'].append(a['lookback'])
     cfg['signals'] = sig
-    return {'cfg': cfg, 'market': mk, 'labels': lab + (['gappy_market'] if gappy else ['dense_market'])}
+    return {'cfg': cfg, 'market': mk, 'labels': lab + (['gappy_market'] if gappy else ['dense_market']),
+            'rerun_shared': draw(st.booleans())}
 
 
 PARTS = [
